@@ -79,7 +79,10 @@ pub fn translate(repo: &Path, out: &mut Out) {
             let api_first = b.starts_with("{matchread_buildpack_descriptor::<BuildpackDescriptorApiOnly,B::Error>()");
             let api_cmp = b.contains("ifbuildpack_descriptor.api!=LIBCNB_SUPPORTED_BUILDPACK_API{") && b.matches("exit(exit_code::GENERIC_CNB_API_VERSION_ERROR)").count() == 2;
             let names = b.contains("Some(\"detect\")=>libcnb_runtime_detect(") && b.contains("Some(\"build\")=>libcnb_runtime_build(")
-                && b.contains("exit(exit_code::GENERIC_UNEXPECTED_EXECUTABLE_NAME_ERROR)");
+                && b.contains("exit(exit_code::GENERIC_UNEXPECTED_EXECUTABLE_NAME_ERROR)")
+                // the name compared is the whole final path component of argv[0]
+                && b.contains("letcurrent_exe=args.first();letcurrent_exe_file_name=current_exe.map(Path::new).and_then(Path::file_name).and_then(OsStr::to_str);")
+                && b.contains("matchcurrent_exe_file_name{");
             let tail = b.ends_with("matchresult{Ok(code)=>exit(code),Err(libcnb_error)=>{buildpack.on_error(libcnb_error);exit(exit_code::GENERIC_UNSPECIFIED_ERROR);}}}");
             let usage = b.matches("exit(exit_code::GENERIC_UNSPECIFIED_ERROR);").count() == 3;
             let _ = writeln!(v, "Definition rt_api_checked_first : bool := {}.", api_first && api_cmp);
